@@ -40,7 +40,8 @@ class Stats:
         self.states = set()
         self.signatures = set()
         self.outcomes = set()
-        self.failures = []  # (case_idx, choices, key, msg)
+        self.failures = []  # (case_idx, choices, key, msg) -- one per distinct key
+        self._fkeys = set()
         self.divergences = 0
         self.errors = []
         self.choice_points = 0
@@ -59,7 +60,8 @@ class Stats:
         self.signatures |= o.signatures
         self.outcomes |= o.outcomes
         for f in o.failures:
-            if len(self.failures) < 2000:
+            if f[2] not in self._fkeys and len(self.failures) < 5000:
+                self._fkeys.add(f[2])
                 self.failures.append(f)
         self.divergences += o.divergences
         self.errors.extend(o.errors[:5])
@@ -133,7 +135,9 @@ def _subtree(task):
             if n > st.max_menu:
                 st.max_menu = n
         for key, msg in out.failures:
-            st.failures.append((case_idx, [c for _, c, _ in trace], key, msg))
+            if key not in st._fkeys:
+                st._fkeys.add(key)
+                st.failures.append((case_idx, [c for _, c, _ in trace], key, msg))
         dev_prefix = sum(1 for _, c, f in trace[:plen] if c and not f)
         kids = []
         for i in range(plen, len(trace)):
